@@ -157,6 +157,77 @@ def case_lognx(log, deg):
     _validate(log, ip, "log", deg)
 
 
+def case_lognx_multi(log, deg, nareas, top=False):
+    """a basis function's area list as the dispatcher builds it: adjacent areas in ascending order, each with its own
+    polynomial; the inversion point ln x is a free symbol whose position relative to the nodes forks through every case
+    (below all areas, inside / at the lower node of each area, above).  Goal: the value is the sum of the single-area
+    values (which the other cases decide), i.e. no state leaks from one area to the next."""
+    ip, mel, _ = load()
+    f = ip.log_evaluate_Nx
+    log.encode(f)
+    eps = ip._atol_eps
+    seen = set()
+
+    def run():
+        N = _N()
+        lx = SR.var("lx")
+        us = [SR.var("u%d" % k) for k in range(nareas + 1)]
+        if top:
+            us[-1] = 0.0
+        for a, b in zip(us, us[1:]):
+            assume(b - a - eps, ">0")
+        if not top:
+            assume(-us[-1] - eps, ">0")
+        assume(lx, "<0")
+        rows = []
+        for a in range(nareas):
+            rows.append([us[a], us[a + 1]] + [SR.var("c%d_%d" % (a, i)) for i in range(deg + 1)])
+        allv = Cx.lift(f(N, lx, realnp.array(rows, dtype=object)) + SR(0))
+        tot = Cx(0, 0)
+        active = []
+        for a in range(nareas):
+            one = f(N, lx, realnp.array([rows[a]], dtype=object))
+            active.append(not isinstance(one, float))
+            tot = tot + Cx.lift(one + SR(0))
+        seen.add(tuple(active))
+        v = prove_zero(_plain(allv) - _plain(tot), "log_evaluate_Nx over %d adjacent areas == sum of the single-area values (areas contributing on this path: %s)"
+                       % (nareas, "".join("x" if a else "-" for a in active)))
+        decide(log, v, key="log_evaluate_Nx:areas-independent", replay=(MOD, "replay_lognx_multi", {"deg": deg, "nareas": nareas, "top": top}),
+               sampler=_multi_sampler(nareas, top), candidates=_multi_candidates(nareas, top))
+        log.twin("ordering of nodes")
+        log.collect_ctx()
+
+    _r, pm = explore(run, max_paths=2000)
+    log.path_stats(pm)
+    if len(seen) < nareas + 1:
+        log.inconclusive.append("multi-area: expected ln x to fork through at least %d positions, saw %r" % (nareas + 1, sorted(seen)))
+
+
+def _multi_grid(nareas, top):
+    return [Fraction(-(nareas - k)) - (0 if top else Fraction(1, 2)) for k in range(nareas + 1)]
+
+
+def _multi_candidates(nareas, top):
+    us = _multi_grid(nareas, top)
+    out = []
+    for k in range(nareas):
+        for lx in (us[k], us[k] + Fraction(3, 10)):  # at the lower node of area k / inside it
+            p = {"u%d" % i: u for i, u in enumerate(us)}
+            p["lx"] = lx
+            out.append(p)
+    return out
+
+
+def _multi_sampler(nareas, top):
+    def s(rng):
+        us = _multi_grid(nareas, top)
+        p = {"u%d" % i: u for i, u in enumerate(us)}
+        p["lx"] = us[0] - 1 + (us[-1] - us[0] + 1) * Fraction(rng.randint(1, 999), 1000)
+        return p
+
+    return s
+
+
 def case_lognx_top(log, deg):
     """area ending at the top node x = 1 (u_max = 0 exactly: the `|N u_max| < eps and k == 0` branch)"""
     ip, mel, _ = load()
@@ -287,6 +358,13 @@ def case_talbot(log):
                 P = mel.Path(t, lx, off)
                 v = prove_zero(_tan(Cx.lift(P.n)) - _plain(P.jac), "d Path.n/dt == Path.jac (axis offset %s)" % off)
                 decide(log, v, key="Path:jac", replay=(MOD, "replay_path", {"off": off}), sampler=_sampler)
+                # documented contour (module docstring of eko.mellin): p(t) = o + r (theta cot theta + i theta) with o = 1 for the
+                # singlet sector and o = 0 for the non-singlet one; r(ln x) > 0 is the code's (regularised) choice and is not pinned
+                o_doc = 1 if off else 0
+                v = prove_zero(_plain(Cx.lift(P.n)) - _plain(Cx.lift(mel.Talbot_path(t, P.r, o_doc))), "Path.n == Talbot_path(t, r, %d): the documented contour (axis offset %s)" % (o_doc, off))
+                decide(log, v, key="Path:n", replay=(MOD, "replay_path", {"off": off}), sampler=_sampler)
+                v = prove_zero(_plain(Cx.lift(P.jac)) - _plain(Cx.lift(mel.Talbot_jac(t, P.r, o_doc))), "Path.jac == Talbot_jac(t, r, %d)" % o_doc)
+                decide(log, v, key="Path:jac", replay=(MOD, "replay_path", {"off": off}), sampler=_sampler)
                 v = prove_rel(SR(0) + P.r, ">0", "Path.r > 0 for every ln x < 0")
                 decide(log, v, key="Path:r", replay=(MOD, "replay_path", {"off": off}), sampler=_sampler)
                 cross = Cx.lift(mel.Path(0.5, lx, off).n)
@@ -377,6 +455,8 @@ def case_integrand(log, is_log, mode0):
         pj = Cx(SR.var("pj_re"), SR.var("pj_im"))
         v = prove_zero(_plain(Cx.lift(cN)) - _plain(Nn), "%s: basis evaluated on the contour point Path.n that also provides the jacobian" % tag)
         decide(log, v, key="QuadKerBase.integrand:contour", replay=rp, sampler=_sampler)
+        v = prove_zero(_plain(Nn) - _plain(Cx.lift(mel.Talbot_path(u, P.r, pole))), "%s: N(t) == Talbot_path(t, r, %d), the documented %s contour" % (tag, pole, "singlet" if offset else "non-singlet"))
+        decide(log, v, key="QuadKerBase.path:contour", replay=rp, sampler=_sampler)
         v = prove_zero(_plain(Cx.lift(n_prop)) - _plain(Nn), "%s.n == its Path.n" % tag)
         decide(log, v, key="QuadKerBase.n", replay=rp, sampler=_sampler)
         cross = Cx.lift(qk.QuadKerBase(0.5, is_log, lx, mode0).n)
@@ -545,6 +625,44 @@ def replay_lognx(point, deg, kind):
     return None
 
 
+def replay_lognx_multi(point, deg, nareas, top=False):
+    """real log_evaluate_Nx on adjacent ascending areas vs quadrature of each area's piece: ln x below the area: full
+    integral; inside / at its lower node: the lower-limit term dropped (= integral from -infinity, Re N > 0); above: 0.
+    Node positions and ln x come from the point; N and the coefficients are fixed generic values."""
+    import mpmath as mp
+    import numpy as np
+    import eko.interpolation as ip
+
+    try:
+        us = [float(point["u%d" % k]) for k in range(nareas + (0 if top else 1))]
+        lx = float(point["lx"])
+    except KeyError:
+        return None
+    if top:
+        us.append(0.0)
+    if any(b - a < 1e-6 for a, b in zip(us, us[1:])) or us[-1] > 0 or lx >= 0 or us[0] < -40 or lx < -60:
+        return None
+    if any(-1e-9 < lx - u < 0 for u in us):  # inside the 2.2e-15 comparison window just below a node
+        return None
+    mp.mp.dps = 30
+    Nf = complex(1.3, 0.8)
+    N = mp.mpc(1.3, 0.8)
+    rows, want = [], mp.mpc(0)
+    for a in range(nareas):
+        cs = [0.7 + 0.3 * a - 0.45 * i + 0.1 * a * i for i in range(deg + 1)]
+        rows.append([us[a], us[a + 1]] + cs)
+        P = lambda u, cs=cs: sum(c * u**i for i, c in enumerate(cs))
+        if lx >= us[a + 1]:
+            continue
+        lo = -mp.inf if lx >= us[a] else us[a]
+        want += mp.quad(lambda u: mp.exp(N * (u - lx)) * P(u), [lo, us[a + 1]])
+    got = ip.log_evaluate_Nx(Nf, lx, np.array(rows))
+    if _differs(got, want):
+        return {"detail": "log_evaluate_Nx(N=%r, ln x=%r) on the adjacent areas %r (coefficients %r) = %r, but the sum over the areas of "
+                          "x^(-N) int exp(N u) P_a(u) du (lower-limit term dropped only in the area containing ln x) = %s" % (Nf, lx, us, [r[2:] for r in rows], got, want)}
+    return None
+
+
 def replay_nx(point, deg, kind):
     import mpmath as mp
     import numpy as np
@@ -642,7 +760,10 @@ def replay_path(point, off):
     cross = complex(mel.Path(0.5, lx, off).n)
     pole = 1.0 if off else 0.0
     msg = None
-    if _differs(P.jac, dn, 1e-6):
+    want_n = _talbot_mp(t, P.r, pole)  # documented: o = 1 with the axis offset (singlet), o = 0 without
+    if _differs(P.n, want_n, 1e-9):
+        msg = "n = %r but the documented contour o + r(theta cot theta + i theta) with o = %r, r = %r gives %s" % (P.n, pole, P.r, want_n)
+    elif _differs(P.jac, dn, 1e-6):
         msg = "jac = %r but d n/dt = %s" % (P.jac, dn)
     elif not (P.r > 0):
         msg = "r = %r is not positive" % (P.r,)
@@ -684,7 +805,7 @@ def replay_integrand(point, is_log, mode0, top=False):
     got = kb.integrand(areas)
     mp.mp.dps = 30
     pole = 1.0 if mode0 in SINGLET_LIKE else 0.0
-    r, o = float(kb.path.r), float(kb.path.o)  # the contour parameters are the code's choice; the contour itself is the oracle's
+    r, o = float(kb.path.r), pole  # r is the code's choice; the offset is the documented one (1 singlet-like, 0 otherwise)
     if not (r > 0 and o + r > pole + 1e-12):
         return {"detail": "QuadKerBase(mode0=%d, ln x=%r): Talbot contour with r=%r, o=%r crosses the real axis at %r, not right of the rightmost singularity N=%r of this sector"
                           % (mode0, lx, r, o, o + r, pole)}
@@ -725,7 +846,8 @@ def main():
         "t = 1/2 special cases are the limits, mellin.Path and QuadKerBase.integrand assemble prefactor * basis * jacobian on the right contour for each sector.")
     chk.bounds = [
         "one area with symbolic limits and symbolic polynomial coefficients, polynomial degree 1..3 (thorough: 1..5) for log_evaluate_Nx and evaluate_Nx; N = nr + i ni symbolic complex",
-        "Talbot path/jacobian: t in (0,1), r > 0, o symbolic reals; series around t = 1/2 to order 6",
+        "log_evaluate_Nx on 2-3 (thorough: up to 4) adjacent areas in ascending order with separate symbolic polynomials, ln x a free symbol forking through every position",
+        "Talbot path/jacobian: t in (0,1), r > 0, o symbolic reals; series around t = 1/2 to order 6; mellin.Path / QuadKerBase: the documented offset o = 1 (singlet-like) / 0, r(ln x) as coded (only r > 0 required)",
         "QuadKerBase.integrand: sectors mode0 in {100, 21, 22, 101, 90} (offset 1) and {200, 10200, 10204, 10100, 91} (thorough also 10101, 10104) (offset 0), log and linear flag, "
         "t in (1/2, 1), ln x < 0 symbolic; the basis factor an opaque complex symbol",
     ]
@@ -749,6 +871,8 @@ def main():
         chk.case("log_evaluate_Nx.deg%d" % d, case_lognx, deg=d)
         chk.case("log_evaluate_Nx.top.deg%d" % d, case_lognx_top, deg=d)
         chk.case("evaluate_Nx.deg%d" % d, case_nx, deg=d)
+    for d, na, top in ((1, 2, False), (2, 3, False), (1, 3, True)) + (((3, 3, False), (2, 4, False), (3, 2, True)) if thorough else ()):
+        chk.case("log_evaluate_Nx.areas%d.deg%d%s" % (na, d, ".top" if top else ""), case_lognx_multi, deg=d, nareas=na, top=top)
     chk.case("talbot", case_talbot)
     for mode0 in list(SINGLET_LIKE) + list(NONSINGLET):
         if mode0 in (10104, 10101) and not thorough:
